@@ -289,6 +289,7 @@ pub struct FnWeaver<'a> {
     pub self_fx: Vec<(String, usize)>,
     pub param_types: Vec<(String, String)>,
     pub len_aliases: BTreeMap<String, String>,
+    pub bound_loads: Vec<usize>,
     /// parameters of this function whose raw self pointer type was read as `&Self` (X11)
     pub x11_params: Vec<String>,
 }
@@ -530,6 +531,9 @@ impl<'a> FnWeaver<'a> {
         }
         if self.c.once_true.is_some() {
             self.ghost(hi(block.brace_token.span.open()), " let ghost mut once__ = false; ".into(), -8);
+        }
+        if self.c.no_wait_after_final.is_some() {
+            self.ghost(hi(block.brace_token.span.open()), " let ghost mut final_seen__ = false; ".into(), -8);
         }
         // pass A: calls, loops
         let mut a = PassA { w: self };
@@ -1153,6 +1157,13 @@ impl<'x, 'a> PassA<'x, 'a> {
             *c += 1;
             *c
         };
+        if let Some((_, _, names, cl)) = self.w.c.no_wait_after_final.clone() {
+            if names.iter().any(|n| n == name) {
+                let t = self.w.clause_text(&cl, "before-call");
+                let k = self.w.src[..start].rfind(|ch| ch == ';' || ch == '{' || ch == '}').map(|k| k + 1).unwrap_or(start);
+                self.w.ghost(k, format!("\n assert({});\n", t), 8);
+            }
+        }
         for (names, cl) in self.w.c.before_each.clone().iter() {
             if names.iter().any(|n| n == name) {
                 let t = self.w.clause_text(cl, "before-call");
@@ -1310,6 +1321,17 @@ fn contains_break_continue(b: &syn::Block) -> bool {
 impl<'x, 'a, 'ast> Visit<'ast> for PassA<'x, 'a> {
     fn visit_expr_method_call(&mut self, m: &'ast syn::ExprMethodCall) {
         let name = m.method.to_string();
+        // no-wait-after-final: a load of the watched field that is not bound by a `let` is let-bound in place (X7) so
+        // that the ghost flag can follow it
+        if let Some((field, bound, _, _)) = self.w.c.no_wait_after_final.clone() {
+            let on_field = matches!(&*m.receiver, syn::Expr::Field(f) if matches!(&f.member, syn::Member::Named(id) if *id == field));
+            if name == "load" && on_field && !self.w.bound_loads.contains(&lo(m.span())) {
+                let orig = self.w.src[lo(m.span())..hi(m.span())].to_string();
+                let t = format!("({{ let l__ = {}; proof {{ if l__ < {} {{ final_seen__ = true; }} }} l__ }})", orig, bound);
+                self.w.rewrite("X7", lo(m.span()), hi(m.span()), t);
+                return;
+            }
+        }
         let on_self = matches!(&*m.receiver, syn::Expr::Path(p) if p.path.is_ident("self"));
         if !self.fx_arg2(&name, m.args.len(), lo(m.paren_token.span.close()), m.args.trailing_punct(), on_self) && self.w.has_fx {
             // an entry point called on a parameter whose declared type is a handle type (`receiver.clone()`)
@@ -1418,6 +1440,28 @@ impl<'x, 'a, 'ast> Visit<'ast> for PassA<'x, 'a> {
             }
         }
         syn::visit::visit_expr_call(self, c);
+    }
+    fn visit_local(&mut self, l: &'ast syn::Local) {
+        if let (Some((field, bound, _, _)), Some(init)) = (self.w.c.no_wait_after_final.clone(), &l.init) {
+            if let syn::Expr::MethodCall(m) = &*init.expr {
+                let on_field = matches!(&*m.receiver, syn::Expr::Field(f) if matches!(&f.member, syn::Member::Named(id) if *id == field));
+                let name = match &l.pat {
+                    syn::Pat::Ident(pi) => Some(pi.ident.to_string()),
+                    syn::Pat::Type(pt) => match &*pt.pat {
+                        syn::Pat::Ident(pi) => Some(pi.ident.to_string()),
+                        _ => None,
+                    },
+                    _ => None,
+                };
+                if m.method == "load" && on_field {
+                    if let Some(v) = name {
+                        self.w.ghost(hi(l.semi_token.span()), format!(" proof {{ if {} < {} {{ final_seen__ = true; }} }} ", v, bound), 6);
+                        self.w.bound_loads.push(lo(m.span()));
+                    }
+                }
+            }
+        }
+        syn::visit::visit_local(self, l);
     }
     fn visit_pat_type(&mut self, pt: &'ast syn::PatType) {
         // a declared type rewrite also applies to the type ascription of a local (`let p: *const Signal<T> = self.0;`)
@@ -1687,6 +1731,7 @@ pub fn new_weaver<'a>(src: &'a str, file: &'a str, func: String, c: &'a FnContra
         self_fx: vec![],
         param_types: vec![],
         len_aliases: BTreeMap::new(),
+        bound_loads: vec![],
         x11_params: vec![],
     }
 }
